@@ -38,6 +38,9 @@ class Registration(Stream):
                 cfg["op"] = op.hex()
                 cfg["opc"] = bytes(a ^ b for a, b in zip(crypto5g.aes(k, op), op)).hex()
                 cfg["opc_text"] = ""
+            fid = [None, 0, (1 << 40) - 2, 255][i % 4]          # first AMF-UE-NGAP-ID the network assigns
+            if fid is not None:
+                cfg["first_amf_id"] = fid
             if i % 4 >= 2:
                 # RAN node names at which an enclosing X.691 length determinant is exactly 128 (the first two-octet
                 # length): the name IE value for 126 characters, the whole message for the length found by trying
